@@ -231,3 +231,122 @@ Corollary async_sync_agree_partial_init (D : tenv) (F : list fundef) (I : config
 Proof.
   intros H1 H2 H3 p pick1 f1 t1 HI. eapply async_sync_agree_partial; eauto using ns_ok_init, bufs_empty_init.
 Qed.
+
+(* ------------------------------------------------------------------ a local sufficient condition, synchronous mode *)
+(* "Topo + Dual" in the form the diamond uses them, for the synchronous mode: empty buffers, at most
+   one sender and at most one receiver per channel among the next actions, and the providers
+   closed on a forward request exist and are touched by no other enabled choice. *)
+Definition sync_discipline (D : tenv) (F : list fundef) (c : config) : Prop :=
+  bufs_empty c /\
+  (forall p q pp qq, p ≠ q -> procs c !! p = Some pp -> procs c !! q = Some qq ->
+     (forall k, ~ (is_send_on (action_of Sync D pp) k /\ is_send_on (action_of Sync D qq) k)) /\
+     (forall k, ~ (is_recv_on (action_of Sync D pp) k /\ is_recv_on (action_of Sync D qq) k))) /\
+  (forall a b c1 c2, a ≠ b -> step Sync D F c a = SStep c1 -> step Sync D F c b = SStep c2 ->
+     closes Sync D c a ## footprint_ch Sync D c b /\ (forall k, k ∈ closes Sync D c a -> is_Some (chans c !! k))).
+
+Lemma sync_run_enabled D F c p c' :
+  bufs_empty c -> step Sync D F c (Run p) = SStep c' ->
+  exists pp, procs c !! p = Some pp /\
+    (reads Sync D c (Run p) = [] \/
+     exists k st, action_of Sync D pp = ARecv k /\ reads Sync D c (Run p) = [k] /\ chans c !! k = Some st /\ ch_closed st = true).
+Proof.
+  intros Hb. cbn [step reads]. destruct (procs c !! p) as [pp|] eqn:Ep; [|done]. intros H. exists pp. split; [done|].
+  destruct (action_of Sync D pp) as [| |k m|k| |k pv|w] eqn:Ea; try done; try (by left).
+  - destruct (chans c !! k) as [[buf cl]|]; [|done]. cbn in H. destruct cl; [done|]. by destruct buf.
+  - right. destruct (chans c !! k) as [[buf cl]|] eqn:Ek; [|done].
+    pose proof (Hb _ _ Ek) as Hbuf. cbn in Hbuf. subst buf. cbn in H. destruct cl; [|done].
+    exists k, (Chan None true). by repeat split.
+Qed.
+
+Lemma sync_rdv_enabled D F c s r c' :
+  step Sync D F c (Rendezvous s r) = SStep c' ->
+  s ≠ r /\ exists ps pr k m st, procs c !! s = Some ps /\ procs c !! r = Some pr /\
+    action_of Sync D ps = ASend k m /\ action_of Sync D pr = ARecv k /\
+    reads Sync D c (Rendezvous s r) = [k] /\ chans c !! k = Some st /\ ch_closed st = false.
+Proof.
+  cbn [step reads]. destruct (bool_decide (s = r)) eqn:Esr; [done|]. apply bool_decide_eq_false in Esr.
+  destruct (procs c !! s) as [ps|] eqn:Es; [|done]. destruct (procs c !! r) as [pr|] eqn:Er; [|done].
+  destruct (action_of Sync D ps) as [| |k m|k| |k pv|w] eqn:Eas; try done.
+  destruct (action_of Sync D pr) as [| |k' m'|k'| |k' pv'|w'] eqn:Ear; try done.
+  destruct (bool_decide (k = k')) eqn:Ekk; [|done]. apply bool_decide_eq_true in Ekk. subst k'.
+  destruct (chans c !! k) as [st|] eqn:Ek; [|done]. destruct (ch_closed st) eqn:Ecl; [done|].
+  intros _. split; [done|]. exists ps, pr, k, m, st. by repeat split.
+Qed.
+
+Theorem sync_discipline_indep D F c a b c1 c2 :
+  sync_discipline D F c -> a ≠ b ->
+  step Sync D F c a = SStep c1 -> step Sync D F c b = SStep c2 -> indep Sync D c a b.
+Proof.
+  intros (Hb & Hd & Hcl) Hab Ha Hbs.
+  destruct (Hcl a b c1 c2 Hab Ha Hbs) as [Hca Hea].
+  destruct (Hcl b a c2 c1 (not_eq_sym Hab) Hbs Ha) as [Hcb Heb].
+  assert (Hmr : movers a ## movers b /\ reads Sync D c a ## reads Sync D c b).
+  { destruct a as [p|s r|f t]; [| |by cbn in Ha; destruct (bool_decide (f = t))];
+    (destruct b as [q|s' r'|f' t']; [| |by cbn in Hbs; destruct (bool_decide (f' = t'))]).
+    - (* Run / Run *)
+      assert (Hpq : p ≠ q) by congruence.
+      destruct (sync_run_enabled _ _ _ _ _ Hb Ha) as (pp & Hp & Hrp).
+      destruct (sync_run_enabled _ _ _ _ _ Hb Hbs) as (qq & Hq & Hrq).
+      split; [cbn; intros x Hx Hy; apply elem_of_list_singleton in Hx, Hy; congruence|].
+      destruct Hrp as [->|(k & st & Hap & -> & _)]; [intros x Hx; by apply elem_of_nil in Hx|].
+      destruct Hrq as [->|(k' & st' & Haq & -> & _)]; [intros x _ Hx; by apply elem_of_nil in Hx|].
+      intros x Hx Hy. apply elem_of_list_singleton in Hx, Hy. subst x k'.
+      destruct (Hd p q pp qq Hpq Hp Hq) as [_ Hrr]. apply (Hrr k). by split.
+    - (* Run / Rendezvous *)
+      destruct (sync_run_enabled _ _ _ _ _ Hb Ha) as (pp & Hp & Hrp).
+      destruct (sync_rdv_enabled _ _ _ _ _ _ Hbs) as (Hsr & ps & pr & k & m & st & Hs & Hr & Has & Har & Hrd & Hk & Hc).
+      assert (p ≠ s').
+      { intros ->. rewrite Hs in Hp. injection Hp as <-.
+        destruct Hrp as [Hrp|(k' & st' & Hap & _)]; [|congruence]. cbn in Hrp. by rewrite Hs, Has in Hrp. }
+      assert (p ≠ r').
+      { intros ->. rewrite Hr in Hp. injection Hp as <-.
+        destruct Hrp as [Hrp|(k' & st' & Hap & _ & Hk' & Hc')]; [cbn in Hrp; by rewrite Hr, Har in Hrp|].
+        rewrite Har in Hap. injection Hap as <-. rewrite Hk in Hk'. injection Hk' as <-. congruence. }
+      split.
+      + cbn. intros x Hx Hy. apply elem_of_list_singleton in Hx as ->.
+        apply elem_of_cons in Hy as [->|Hy]; [done|]. by apply elem_of_list_singleton in Hy as ->.
+      + rewrite Hrd. destruct Hrp as [->|(k' & st' & Hap & -> & Hk' & Hc')]; [intros x Hx; by apply elem_of_nil in Hx|].
+        intros x Hx Hy. apply elem_of_list_singleton in Hx, Hy. subst x k'. rewrite Hk in Hk'. injection Hk' as <-. congruence.
+    - (* Rendezvous / Run *)
+      destruct (sync_run_enabled _ _ _ _ _ Hb Hbs) as (pp & Hp & Hrp).
+      destruct (sync_rdv_enabled _ _ _ _ _ _ Ha) as (Hsr & ps & pr & k & m & st & Hs & Hr & Has & Har & Hrd & Hk & Hc).
+      assert (q ≠ s).
+      { intros ->. rewrite Hs in Hp. injection Hp as <-.
+        destruct Hrp as [Hrp|(k' & st' & Hap & _)]; [|congruence]. cbn in Hrp. by rewrite Hs, Has in Hrp. }
+      assert (q ≠ r).
+      { intros ->. rewrite Hr in Hp. injection Hp as <-.
+        destruct Hrp as [Hrp|(k' & st' & Hap & _ & Hk' & Hc')]; [cbn in Hrp; by rewrite Hr, Har in Hrp|].
+        rewrite Har in Hap. injection Hap as <-. rewrite Hk in Hk'. injection Hk' as <-. congruence. }
+      split.
+      + cbn. intros x Hx Hy. apply elem_of_list_singleton in Hy as ->.
+        apply elem_of_cons in Hx as [->|Hx]; [done|]. by apply elem_of_list_singleton in Hx as ->.
+      + rewrite Hrd. destruct Hrp as [->|(k' & st' & Hap & -> & Hk' & Hc')]; [intros x _ Hx; by apply elem_of_nil in Hx|].
+        intros x Hx Hy. apply elem_of_list_singleton in Hx, Hy. subst x k'. rewrite Hk in Hk'. injection Hk' as <-. congruence.
+    - (* Rendezvous / Rendezvous *)
+      destruct (sync_rdv_enabled _ _ _ _ _ _ Ha) as (Hsr & ps & pr & k & m & st & Hs & Hr & Has & Har & Hrd & Hk & Hc).
+      destruct (sync_rdv_enabled _ _ _ _ _ _ Hbs) as (Hsr' & ps' & pr' & k' & m' & st' & Hs' & Hr' & Has' & Har' & Hrd' & Hk' & Hc').
+      (* a process is a sender or a receiver, not both *)
+      assert (s ≠ r') by (intros ->; rewrite Hs in Hr'; injection Hr' as <-; congruence).
+      assert (r ≠ s') by (intros ->; rewrite Hr in Hs'; injection Hs' as <-; congruence).
+      (* senders (receivers) on the same channel coincide *)
+      assert (Hss : k = k' -> s = s').
+      { intros <-. destruct (decide (s = s')) as [|Hne]; [done|].
+        destruct (Hd s s' ps ps' Hne Hs Hs') as [Hx _]. destruct (Hx k). split; eexists; eauto. }
+      assert (Hrr : k = k' -> r = r').
+      { intros <-. destruct (decide (r = r')) as [|Hne]; [done|].
+        destruct (Hd r r' pr pr' Hne Hr Hr') as [_ Hx]. destruct (Hx k). by split. }
+      assert (Hkk : k ≠ k').
+      { intros E. apply Hab. by rewrite (Hss E), (Hrr E). }
+      assert (s ≠ s') by (intros ->; rewrite Hs in Hs'; injection Hs' as <-; congruence).
+      assert (r ≠ r') by (intros ->; rewrite Hr in Hr'; injection Hr' as <-; congruence).
+      split.
+      + cbn. intros x Hx Hy. apply elem_of_cons in Hx as [->|Hx]; [|apply elem_of_list_singleton in Hx as ->];
+          (apply elem_of_cons in Hy as [->|Hy]; [done|]; by apply elem_of_list_singleton in Hy as ->).
+      + rewrite Hrd, Hrd'. intros x Hx Hy. apply elem_of_list_singleton in Hx, Hy. congruence. }
+  destruct Hmr as [Hmov Hrd]. split; [done|]. split.
+  - unfold footprint_ch in *. intros k Hk1 Hk2. apply elem_of_app in Hk1 as [Hk1|Hk1].
+    + apply elem_of_app in Hk2 as [Hk2|Hk2]; [exact (Hrd k Hk1 Hk2)|].
+      apply (Hcb k Hk2). apply elem_of_app. by left.
+    + exact (Hca k Hk1 Hk2).
+  - intros k Hk. apply elem_of_app in Hk as [Hk|Hk]; [by apply Hea|by apply Heb].
+Qed.
